@@ -483,12 +483,22 @@ def main(argv):
     assumptions = []
     axioms_seen = []
     if rc_make == 0:
-        rc, out = sh(["coqc", "-Q", ".", "Mv", prop_v], cwd=COQ, timeout=900)
+        # the property file and any addendum files (Props/CxxDisk.v, HistoryTie.v, ...)
+        prop_files = [prop_v] + [t[:-1] for t in prop.get("coq_targets", []) if t.startswith("Props/")] \
+            + prop.get("extra_prop_files", [])
+        rc, out, n_expected = 0, "", 0
+        for pv in dict.fromkeys(prop_files):
+            rc1, out1 = sh(["coqc", "-Q", ".", "Mv", pv], cwd=COQ, timeout=900)
+            if rc1 != 0:
+                rc, out = rc1, out1
+                prop_v_failed = pv
+                break
+            out += out1
+            n_expected += len(re.findall(r"^\s*Print Assumptions", open(os.path.join(COQ, pv)).read(), re.M))
         if rc != 0:
-            proof_broken = {"file": prop_v, "line": 0, "error": out[-1500:]}
+            proof_broken = {"file": prop_v_failed, "line": 0, "error": out[-1500:]}
         else:
             assumptions = parse_assumptions(out)
-            n_expected = len(re.findall(r"^\s*Print Assumptions", open(os.path.join(COQ, prop_v)).read(), re.M))
             if len(assumptions) != n_expected:
                 notes.append("Print Assumptions blocks parsed: %d of %d" % (len(assumptions), n_expected))
             allowed = set(prop.get("allowed_axioms", []))
